@@ -59,7 +59,7 @@ Definition lha_input_stream_new (s : source) : istream :=
 (* checked access to leadin[i] (the valid part is leadin_len bytes of a 24-byte array) *)
 Definition leadin_at (site : N) (l : list N) (i : N) : outcome N :=
   if i <? leadin_extent then
-    match nth_N l i with Some b => Ok b | None => Ok 0 (* stale byte inside the array *) end
+    match nth_N l i with Some b => Ok b | None => Fault site (* beyond leadin_len: stale *) end
   else Fault site.
 
 (* file_header_match(buf = leadin + i) *)
@@ -126,7 +126,23 @@ Definition skip_sfx (st : istream) : outcome (bool * istream) :=
       {| sx_src := is_src st; sx_leadin := is_leadin st; sx_filepos := 0; sx_skip := 0 |} ;;
   Ok (ok, {| is_src := src'; is_state := is_state st; is_leadin := l |}).
 
-(* lha_input_stream_read: Some bytes = the buffer was filled completely *)
+(* The part of lha_input_stream_read after the self-extractor scan (states
+   READING / FAIL): drain the lead-in buffer, then the source.
+   Some bytes = the buffer was filled completely. *)
+Definition read_ready (st1 : istream) (buf_len : N) : option (list N) * istream :=
+  match is_state st1 with
+  | IS_FAIL => (None, st1)
+  | _ =>
+    let from_leadin := firstn_N buf_len (is_leadin st1) in
+    let l' := skipn_N buf_len (is_leadin st1) in
+    let total := nlen from_leadin in
+    if total <? buf_len then
+      let '(got, src') := raw_read (is_src st1) (buf_len - total) in
+      let st2 := {| is_src := src'; is_state := is_state st1; is_leadin := l' |} in
+      if total + nlen got =? buf_len then (Some (from_leadin ++ got), st2) else (None, st2)
+    else (Some from_leadin, {| is_src := is_src st1; is_state := is_state st1; is_leadin := l' |})
+  end.
+
 Definition lha_input_stream_read (st : istream) (buf_len : N) : outcome (option (list N) * istream) :=
   st1 <- match is_state st with
          | IS_INIT =>
@@ -135,18 +151,7 @@ Definition lha_input_stream_read (st : istream) (buf_len : N) : outcome (option 
                  is_leadin := is_leadin st' |}
          | _ => Ok st
          end ;;
-  match is_state st1 with
-  | IS_FAIL => Ok (None, st1)
-  | _ =>
-    let from_leadin := firstn_N buf_len (is_leadin st1) in
-    let l' := skipn_N buf_len (is_leadin st1) in
-    let total := nlen from_leadin in
-    if total <? buf_len then
-      let '(got, src') := raw_read (is_src st1) (buf_len - total) in
-      let st2 := {| is_src := src'; is_state := is_state st1; is_leadin := l' |} in
-      if total + nlen got =? buf_len then Ok (Some (from_leadin ++ got), st2) else Ok (None, st2)
-    else Ok (Some from_leadin, {| is_src := is_src st1; is_state := is_state st1; is_leadin := l' |})
-  end.
+  Ok (read_ready st1 buf_len).
 
 (* the read-based fallback inside lha_input_stream_skip (type->skip == NULL), after
    the fix: a read of 0 bytes is failure *)
